@@ -96,3 +96,15 @@ Definition check_dcase (c : dcase) : bool :=
 
 Definition dmismatches (cs : list dcase) : list N :=
   map did (filter (fun c => negb (check_dcase c)) cs).
+
+(* ---- discarded bodies ---- *)
+Record bcase := mkbcase {
+  bid : N;
+  bmsgs : list (bodymode * bodyinfo);
+  o_bfail : option nat }.             (* index of the first message the real codec failed to read *)
+
+Definition check_bcase (c : bcase) : bool :=
+  eqb_onat (conn_bodies discard_via_iface (bmsgs c) 0) (o_bfail c).
+
+Definition bmismatches (cs : list bcase) : list N :=
+  map bid (filter (fun c => negb (check_bcase c)) cs).
